@@ -232,7 +232,8 @@ def make_case(seed, workdir, profile="c14"):
     case = rc.gen_case(seed, profile, workdir)
     case["search_all"] = list(case["search"])
     prng = random.Random(f"prepopulate:{seed}")
-    if profile == "c14" or prng.random() < 0.3:        # the aimed profiles mostly start from an empty destination
+    # the aimed profiles mostly start from an empty destination; at scale half of the cases are pre-populated
+    if profile == "c14" or prng.random() < (0.5 if profile.startswith("scale") else 0.3):
         prepopulate(case, prng)
     if case["dest_arg"] == case["dest"] and not os.path.isdir(case["dest"]):
         os.makedirs(case["dest"])
@@ -397,6 +398,9 @@ def e2e(ctx):
     plan = ["c14"] * (70 if quick else 1100) + ["boundary"] * (6 if quick else 80) + ["boundary-only"] * (6 if quick else 80) + \
         ["absent"] * (8 if quick else 100) + ["namesake"] * (10 if quick else 120) + \
         ["escape"] * (30 if quick else 500)
+    # payloads at SCALE (rebuild_common.scale_plan: candidates of 1 .. 6 MiB, piece lengths 256 KiB .. 4 MiB and more): copies larger
+    # than any buffer a copy loop would use, judged by the same snapshots and the same rules
+    plan += rc.scale_plan(not quick, "scale14")
     n = len(plan)
     seeds = [ctx.rng.getrandbits(48) for _ in range(n)]
     with core.Scratch("vc14e_") as tmp:
